@@ -68,6 +68,7 @@ class Sub:
         floors=None,
         exhaustive=False,
         max_skip_frac=0.5,
+        custom=None,
     ):
         self.name = name
         self.check = check
@@ -79,6 +80,9 @@ class Sub:
         self.floors = floors or {}
         self.exhaustive = exhaustive
         self.max_skip_frac = max_skip_frac
+        # custom(tier, seed, shard, n_shards, n_examples) -> dict(evals, nt=[digests], tags, samples, fail, harness)
+        # for engines that drive themselves (the atheris campaign of C13)
+        self.custom = custom
 
 
 # --------------------------------------------------------------------------------------------
@@ -212,7 +216,15 @@ def _worker(args):
             torch.set_num_threads(1)
         except Exception:
             pass
-        if sub.enumerate is not None:
+        if sub.custom is not None:
+            res = sub.custom(tier, seed, shard, n_shards, n_examples)
+            tally.evals = res.get("evals", 0)
+            tally.nt = set(res.get("nt", []))
+            tally.tags = dict(res.get("tags", {}))
+            tally.samples = list(res.get("samples", []))[:2]
+            tally.fail = res.get("fail")
+            tally.harness = res.get("harness")
+        elif sub.enumerate is not None:
             for i, case in enumerate(sub.enumerate(tier)):
                 if i % n_shards != shard:
                     continue
